@@ -4,7 +4,7 @@
    token stream from the real implementation. *)
 From Coq Require Import String Ascii.
 From Radius Require Import Base.Bytes Base.Guard Base.Res Gen.Consts
-  Model.Attrs Model.Packet Model.Passwords Model.Codecs Model.Client Model.Dispatch Spec.C06 Model.Shutdown Model.ShutdownSched Spec.C05 Spec.C10 Spec.C09 Spec.C01 Spec.C03 Spec.C04 Spec.C11.
+  Model.Attrs Model.Packet Model.Passwords Model.Codecs Model.Client Model.Exchange Model.Dispatch Spec.C06 Model.Shutdown Model.ShutdownSched Spec.C05 Spec.C10 Spec.C09 Spec.C01 Spec.C03 Spec.C04 Spec.C11.
 From Radius Require Import Crypto.MD5.
 Open Scope list_scope.
 Open Scope nat_scope.
@@ -302,6 +302,41 @@ Definition dispatch_c06 (name : bytes) (bs : list bytes) (zs : list Z) : option 
     end
   else None.
 
+(* ---- C08 ---- *)
+(* zs = retry :: max :: skip :: nev :: event kinds (nev) ++ packet ints ; bs = datagrams of XDatagram events ++ packet byte args *)
+Fixpoint take_xevents (ks : list Z) (bs : list bytes) : list xevent * list bytes :=
+  match ks with
+  | [] => ([], bs)
+  | k :: r =>
+    if (k =? 2)%Z then
+      match bs with
+      | d :: bs' => let '(es, rest) := take_xevents r bs' in (XDatagram d :: es, rest)
+      | [] => ([], [])
+      end
+    else
+      let '(es, rest) := take_xevents r bs in
+      ((if k =? 0 then XStep else if k =? 1 then XDialFail else if k =? 3 then XReadErr
+        else if k =? 4 then XTick else if k =? 5 then XCtxDone else XHelper)%Z :: es, rest)
+  end.
+Definition dispatch_c08 (name : bytes) (bs : list bytes) (zs : list Z) : option (list tok) :=
+  if name_is name "m.exchange" then
+    match zs with
+    | rt :: mx :: sk :: nev :: r =>
+      let n := Z.to_nat nev in
+      let '(es, pbs) := take_xevents (firstn n r) bs in
+      let rq := arg_packet pbs (skipn n r) in
+      let s := xrun md5 rt mx (sk =? 1)%Z rq xinit es in
+      Some ((match xmain s with
+             | M_returned (XPacket p) => TI 0 :: t_packet p
+             | M_returned (XErr e) => [TI 1; TI (Z.of_N e)]
+             | M_returned XCtxErr => [TI 2]
+             | M_returned XNetErr => [TI 3]
+             | _ => [TI 9]
+             end) ++ [TI (zlen (sent s)); TI (if conn_closed s then 1 else 0)])
+    | _ => Some [TI (-94)]
+    end
+  else None.
+
 Definition dispatch (name : bytes) (bs : list bytes) (zs : list Z) : list tok :=
   if name_is name "m.attrs_run" then run_attrs false bs zs
   else if name_is name "s.attrs_run" then run_attrs true bs zs
@@ -312,7 +347,8 @@ Definition dispatch (name : bytes) (bs : list bytes) (zs : list Z) : list tok :=
   match dispatch_client name bs zs with Some t => t | None =>
   match dispatch_sched name bs zs with Some t => t | None =>
   match dispatch_c06 name bs zs with Some t => t | None =>
-  [TI (-97)] end end end end end end.
+  match dispatch_c08 name bs zs with Some t => t | None =>
+  [TI (-97)] end end end end end end end.
 
 Require Extraction.
 Require Import ExtrOcamlBasic.
